@@ -303,6 +303,29 @@ func compoundSafe(repo string) bool {
 	return false
 }
 
+// genesis.go of x/multistaking: the shape the model's genesis round trip has (pools, undelegations, rewards are
+// exported; the undelegation id counter is restored as the highest imported id)
+func genesisShape(repo string) {
+	f := parse(filepath.Join(repo, "x/multistaking/genesis.go"))
+	exp, imp := findFunc(f, "ExportGenesis"), findFunc(f, "InitGenesis")
+	if exp == nil || imp == nil {
+		die("multistaking genesis.go: InitGenesis / ExportGenesis not found")
+	}
+	if src(exp.Body) != "{return&types.GenesisState{Pools:keeper.GetAllStakingPools(ctx),Undelegations:keeper.GetAllUndelegations(ctx),Rewards:keeper.GetAllDelegatorRewards(ctx),}}" {
+		die("multistaking ExportGenesis: not the three-field export the model has: %s", src(exp.Body))
+	}
+	b := src(imp.Body)
+	for _, want := range []string{
+		"lastUndelegationId:=uint64(0)for_,undelegation:=rangegs.Undelegations{k.SetUndelegation(ctx,undelegation)ifundelegation.Id>lastUndelegationId{lastUndelegationId=undelegation.Id}}iflastUndelegationId>0{k.SetLastUndelegationId(ctx,lastUndelegationId)}",
+		"for_,pool:=rangegs.Pools{k.SetStakingPool(ctx,pool)",
+		"k.SetDelegatorRewards(ctx,delegator,reward.Rewards)",
+	} {
+		if !strings.Contains(b, want) {
+			die("multistaking InitGenesis: not the import the model has (missing %s)", want)
+		}
+	}
+}
+
 func main() {
 	repo := flag.String("repo", "/repo", "repository root")
 	out := flag.String("out", "", "output .v file")
@@ -313,6 +336,7 @@ func main() {
 	po, rr, br := undelegateFacts(*repo)
 	sr, sg := slashByRef(*repo), slashGuard(*repo)
 	cs := compoundSafe(*repo)
+	genesisShape(*repo)
 	var b strings.Builder
 	b.WriteString("(* GENERATED by /verif/harness/cmd/gen_c10 from x/multistaking/keeper/msg_server.go (ClaimUndelegation),\n")
 	b.WriteString("   x/multistaking/keeper/delegation.go (Undelegate), x/multistaking/keeper/slash.go, app/app.go (slashing keeper wiring)\n   and x/distributor/keeper/abci.go (BeginBlocker, EndBlocker) -- do not edit *)\n")
